@@ -119,7 +119,7 @@ fn packed_points(repeat_at: usize, count: u8) {
 /// Three points, no REPEAT flags.
 // @bound one contour of 3 points, no instructions; the 3 flag bytes (REPEAT clear) and all coordinate bytes symbolic, running coordinate sums inside the 16-bit range
 #[kani::proof]
-#[kani::unwind(10)]
+#[kani::unwind(20)]
 fn c16_packed_points_no_repeat() {
     packed_points(N, 0);
 }
@@ -127,7 +127,7 @@ fn c16_packed_points_no_repeat() {
 /// First flag repeated once: flags are f, f, g.
 // @bound as above with the first flag carrying REPEAT with count 1
 #[kani::proof]
-#[kani::unwind(10)]
+#[kani::unwind(20)]
 fn c16_packed_points_repeat_first_once() {
     packed_points(0, 1);
 }
@@ -135,7 +135,7 @@ fn c16_packed_points_repeat_first_once() {
 /// First flag repeated twice: flags are f, f, f.
 // @bound as above with the first flag carrying REPEAT with count 2
 #[kani::proof]
-#[kani::unwind(10)]
+#[kani::unwind(20)]
 fn c16_packed_points_repeat_first_twice() {
     packed_points(0, 2);
 }
@@ -144,7 +144,7 @@ fn c16_packed_points_repeat_first_twice() {
 // @tier thorough
 // @bound as above with the second flag carrying REPEAT with count 1
 #[kani::proof]
-#[kani::unwind(10)]
+#[kani::unwind(20)]
 fn c16_packed_points_repeat_second_once() {
     packed_points(1, 1);
 }
@@ -153,7 +153,7 @@ fn c16_packed_points_repeat_second_once() {
 // @tier thorough
 // @bound as above with the last flag carrying REPEAT with count 0
 #[kani::proof]
-#[kani::unwind(10)]
+#[kani::unwind(20)]
 fn c16_packed_points_repeat_zero() {
     packed_points(2, 0);
 }
